@@ -34,6 +34,8 @@ SELECTORS = ('subset', 'subsample', 'subset_pattern', 'subsample_pattern')
 
 
 def run(ctx, obs):
+    from ..rules import sweeps
+    sweeps.run(ctx, obs, 'C05')
     prog, dep = ctx.prog, ctx.dep
     # 1. SIG over the whole non-vis package
     n = sig_conformance(ctx, obs, [''], report_ok=False)
